@@ -185,6 +185,8 @@ SEEDS = {
     "C16i-wall-scales-with-mu-not-sqrt-mu": ("C16", "a non-zero wall susceptibility with a positive conductivity: a skin-depth rewrite leaves mu_r out of the skin depth, the wall impedance scales with (1+xi) instead of sqrt(1+xi)", []),
     "C19i-verbose-log-drains-modulation-records": ("C19", "RF modulation with --verbose and an HDF5 output with outstep > 0: a verbose status line reads getPastModulation() (which empties the store) right before the records are written - only those after the last in-loop output reach the file", ["C12"]),
     "C20i-tracking-in-config-has-no-target": ("C20", "the option tracking given in a config file and not on the command line: the config-file twin of the option lost its store-to pointer, the value never reaches the member (the saved .cfg still shows it)", ["C13"]),
+    "C14i-ps-axis-keeps-time-stamps-unique": ("C14", "an interrupt before the first step (set-up, points S0..S14) with the default SavePhaseSpace 0: the phase-space time axis only takes a stamp later than the last one, the final record repeats t=0 - /PhaseSpace/data has 2 records, its axis 1 (also an uninterrupted -T 0 run)", ["C10"]),
+    "C17i-start-file-read-with-stored-type": ("C17", "an .h5 start file whose /PhaseSpace/data holds 64-bit floats (h5py default, a double-precision build): the record is read with the file's datatype as memory type, 8 bytes per cell into a 4-byte-per-cell buffer", ["C11"]),
     "C10-": ("C10", "", []),
     "C17-": ("C17", "", []),
 }
